@@ -112,6 +112,18 @@ CLAIMED = {
             "one class tree (subclasses in the namespace of their base); bounded parts listed in the evidence",
             "contract-based verification: case analysis over live class-hierarchy facts + labelled bounded round trips",
             "DESIGN.md section 4 C16"),
+    'C01': ("Occurrence lemmas of the structural XML codec proved with symbolic min_occurs/max_occurs: "
+            "_get_members_etree emits exactly the children the schema convention prescribes (nothing / one xsi:nil / one "
+            "per item in order / one scalar, siblings in declaration order) and complex_from_element reads them back, "
+            "rejecting under soft validation iff the count is out of bounds; leaf text forms are C08's lemmas. Bounded "
+            "(labelled): requests built by an independent reference encoder for 6 generated signatures with boundary "
+            "values through the real XmlDocument/Soap11/Soap12 pipeline x {None, soft, lxml} (user function invoked once "
+            "with equal values; response read by an independent reference decoder denotes the returned value), SOAP "
+            "headers, and the Spyne client looped back onto the server.",
+            "lxml keeps order/text/attributes; the schema-driven third-party client clause is not decidable here (external "
+            "program) -- C06's schema-truthfulness obligations are the in-family substitute",
+            "contract-based deductive verification of occurrence lemmas (z3) + labelled bounded differential round trips",
+            "DESIGN.md section 4 C01"),
 }
 NOT_YET = {}
 for i in range(1, 19):
